@@ -18,6 +18,54 @@ from .corpus import CORPUS
 COPY = ('gym_gridverse', 'yaml', 'examples', 'scripts')
 
 
+def _copy_tree(repo: str) -> str:
+    d = tempfile.mkdtemp(prefix='gvselftest-')
+    for sub in COPY:
+        shutil.copytree(os.path.join(repo, sub), os.path.join(d, sub),
+                        ignore=shutil.ignore_patterns('__pycache__', '*.pyc'))
+    shutil.copy(os.path.join(repo, 'setup.py'), d)
+    return d
+
+
+def _make_patched(repo: str, patch: str) -> Optional[str]:
+    import subprocess
+    d = _copy_tree(repo)
+    r = subprocess.run(['git', 'apply', '--unsafe-paths', f'--directory={d}', patch], cwd=d,
+                       capture_output=True, text=True)
+    if r.returncode != 0:
+        r = subprocess.run(['patch', '-p1', '-s', '-i', patch], cwd=d, capture_output=True,
+                           text=True)
+        if r.returncode != 0:
+            shutil.rmtree(d, ignore_errors=True)
+            return None
+    return d
+
+
+def patch_variants() -> List[Dict[str, Any]]:
+    """seeded changes kept under /verif/seeded (faults) and /verif/controls (controls)"""
+    here = os.path.dirname(os.path.dirname(os.path.abspath(__file__)))
+    out: List[Dict[str, Any]] = []
+    for kind, sub in (('fault', 'seeded'), ('control', 'controls')):
+        base = os.path.join(here, sub)
+        if not os.path.isdir(base):
+            continue
+        for name in sorted(os.listdir(base)):
+            mp = os.path.join(base, name, 'meta.json')
+            pp = os.path.join(base, name, 'patch.diff')
+            if not (os.path.exists(mp) and os.path.exists(pp)):
+                continue
+            meta = json.load(open(mp))
+            if kind == 'fault':
+                props = sorted(k for k, v in meta.get('detected_by', {}).items() if v)
+                for p in props:
+                    out.append({'name': f'{sub}/{name}', 'kind': 'fault', 'props': [p],
+                                'rules': meta['detected_by'][p], 'patch': pp, 'edits': []})
+            else:
+                out.append({'name': f'{sub}/{name}', 'kind': 'control',
+                            'props': meta.get('props', []), 'patch': pp, 'edits': []})
+    return out
+
+
 def _make_variant(repo: str, edits: List[Tuple[str, str, str]]) -> Optional[str]:
     """copy the analysed part of the tree and apply textual edits; None if an anchor is gone"""
     for rel, old, new in edits:
@@ -40,7 +88,7 @@ def _run_variant(args) -> Dict[str, Any]:
     repo, v = args
     from .main import analyse
     import ast
-    d = _make_variant(repo, v['edits'])
+    d = _make_patched(repo, v['patch']) if v.get('patch') else _make_variant(repo, v['edits'])
     if d is None:
         return {'name': v['name'], 'status': 'skipped (anchor text not found)'}
     try:
@@ -69,7 +117,7 @@ def _run_variant(args) -> Dict[str, Any]:
 
 
 def run(pid: str, repo: str, report=None, jobs: int = 16) -> Dict[str, Any]:
-    variants = [v for v in CORPUS if pid in v['props']]
+    variants = [v for v in CORPUS + patch_variants() if pid in v['props']]
     # a variant is checked only against the property being run
     work = [(repo, dict(v, props=[pid])) for v in variants]
     if not work:
@@ -104,6 +152,6 @@ def run(pid: str, repo: str, report=None, jobs: int = 16) -> Dict[str, Any]:
 if __name__ == '__main__':
     import sys
     repo = os.environ.get('VERIF_REPO', '/repo')
-    pids = sys.argv[1:] or sorted({p for v in CORPUS for p in v['props']})
+    pids = sys.argv[1:] or sorted({p for v in CORPUS + patch_variants() for p in v['props']})
     for pid in pids:
         run(pid, repo)
